@@ -109,6 +109,10 @@ pub struct Shared {
     pub cur_conn: Cell<Option<usize>>,
     pub cur_paused: Cell<bool>,
     pub expect_removed: Cell<Option<usize>>,
+    /// reference rotation cursor (position in the handle list) and the list it refers to: the
+    /// cursor moves only inside accept_one (one step per skipped or served handle)
+    pub rr_cursor: Cell<Option<usize>>,
+    pub rr_handles: RefCell<Vec<usize>>,
     pub drain_windows: Cell<u64>,
     /// length of the dispatch log when the first worker was killed (usize::MAX = no fault yet)
     pub first_fault_dispatch: Cell<usize>,
@@ -179,6 +183,8 @@ impl Shared {
             cur_conn: Cell::new(None),
             cur_paused: Cell::new(false),
             expect_removed: Cell::new(None),
+            rr_cursor: Cell::new(None),
+            rr_handles: RefCell::new(Vec::new()),
             drain_windows: Cell::new(0),
             first_fault_dispatch: Cell::new(usize::MAX),
             paused_at_step_begin: Cell::new(false),
@@ -328,6 +334,24 @@ impl Hooks for SimHooks {
                         ));
                     }
                 }
+                if sh.prop == "C04" && !handles.is_empty() {
+                    let same = *sh.rr_handles.borrow() == handles;
+                    if let (Some(c), true) = (sh.rr_cursor.get(), same) {
+                        if c != next {
+                            sh.violate(Violation::new(
+                                "rr-cursor-moved",
+                                format!(
+                                    "the rotation {handles:?} was left with its cursor at position {c} (the handle after the last one served or skipped) but the next dispatch starts looking at position {next}: workers in between lose their turn"
+                                ),
+                            ));
+                        } else {
+                            sh.ctx(|ctx| ctx.bump("probe.rr_cursor_checked"));
+                        }
+                    }
+                    let len = handles.len();
+                    sh.rr_cursor.set(Some(if avail.get(next).copied().unwrap_or(false) { next } else { (next + 1) % len }));
+                    *sh.rr_handles.borrow_mut() = handles.clone();
+                }
                 *sh.last_view.borrow_mut() = Some((handles, avail, next));
                 if n > 10_000 {
                     panic!("{SPIN_MARK}");
@@ -345,6 +369,13 @@ impl Hooks for SimHooks {
                 };
                 let before = sh.in_progress(slot);
                 let seq = sh.next_seq();
+                {
+                    let h = sh.rr_handles.borrow();
+                    match h.iter().position(|x| *x == idx) {
+                        Some(p) => sh.rr_cursor.set(Some((p + 1) % h.len())),
+                        None => sh.rr_cursor.set(None),
+                    }
+                }
                 {
                     let mut conns = sh.conns.borrow_mut();
                     conns[c].owner = Some(slot);
@@ -384,6 +415,7 @@ impl Hooks for SimHooks {
             }
             Point::SendFailed(idx) => {
                 sh.worker_fault_seen.set(true);
+                sh.rr_cursor.set(None);
                 sh.send_failed_idx.borrow_mut().push(idx);
                 sh.expect_removed.set(Some(idx));
                 // the rotation as the accept loop sees it once this handle is removed
